@@ -150,3 +150,48 @@ def run(chk, pid):
                        reproduced=True if reproduced else None)
     else:
         chk.obligation(name, 'VizierServicer.*', 'frame', report.PROVED, dt, detail=detail)
+
+
+CLIENT = 'vizier._src.service.vizier_client'
+
+
+def run_client(chk, pid):
+    """`<pid>.VizierClient.frame.no_client_side_state`: the client object keeps no mutable in-memory state (no attrs field with
+    a mutable container default, no method writing `self.<attr>`): every get_suggestions is answered by the service, so a
+    later call of the same worker reaches the algorithm again instead of an operation the client remembers."""
+    t0 = time.time()
+    try:
+        cls = source.ModuleInfo.get(CLIENT).classes['VizierClient']
+    except (KeyError, FileNotFoundError) as e:
+        chk.error('extract.VizierClient', 'class not found in the current tree: %r' % (e,))
+        return
+    if 'get_suggestions' not in cls.methods:
+        chk.error('vacuity.client_frame', 'VizierClient.get_suggestions not found')
+        return
+    chk.function(CLIENT, 'VizierClient.get_suggestions')
+    bad = []
+    for n in cls.node.body if hasattr(cls, 'node') else []:
+        if isinstance(n, (ast.AnnAssign, ast.Assign)) and n.value is not None:
+            src = ast.unparse(n.value)
+            tgt = ast.unparse(n.target if isinstance(n, ast.AnnAssign) else n.targets[0])
+            for ctor in ('dict', 'list', 'set', 'collections.defaultdict', 'defaultdict', 'collections.Counter', 'collections.OrderedDict', 'collections.deque'):
+                if 'factory=%s' % ctor in src.replace(' ', '') or src.strip() in ('{}', '[]', 'set()', 'dict()', 'list()'):
+                    bad.append('field %s has a mutable in-memory default: `%s`' % (tgt, src[:80]))
+                    break
+    for m, a, ln, txt in writes_in_methods(cls):
+        bad.append('%s writes client-side state self.%s: `%s`' % (m, a, txt))
+    name = '%s.VizierClient.frame.no_client_side_state' % pid
+    dt = time.time() - t0
+    if not bad:
+        chk.obligation(name, 'VizierClient.*', 'frame', report.PROVED, dt, detail={'methods': sorted(cls.methods)})
+        return
+    env = dict(os.environ)
+    env['VERIF_REPO'] = source.REPO
+    try:
+        r = subprocess.run(['/venv/bin/python', os.path.join(report.VERIF, 'replay', 'c06_client.py')], capture_output=True, text=True, timeout=600, env=env, cwd=report.VERIF)
+        rr = json.loads([l for l in r.stdout.splitlines() if l.startswith('{')][-1])
+    except Exception as e:      # replay trouble is never a verdict
+        rr = {'reproduced': None, 'error': repr(e)}
+    chk.obligation(name, 'VizierClient.*', 'frame', report.VIOLATED, dt, model='\n'.join(bad),
+                   replay={'offending': bad, 'native_run': rr, 'how_to_replay': 'VERIF_REPO=<tree> /venv/bin/python /verif/replay/c06_client.py'},
+                   reproduced=True if rr.get('reproduced') else None)
